@@ -18,7 +18,7 @@ import string
 from .. import core, tlc
 from .. import migrationutil as mu
 
-INVARIANTS = ["TypeOK", "JobsNeverLost", "Refuse", "MigratePreserves", "CollisionLeavesJobs", "MigrateRefuses",
+INVARIANTS = ["D1Frame", "ReqAgrees", "TypeOK", "JobsNeverLost", "Refuse", "MigratePreserves", "CollisionLeavesJobs", "MigrateRefuses",
               "UpToDateNoop", "SecondNoop", "OpensAfterwards", "LockHeld", "ChainIsFunction", "CollisionRecoverable"]
 PROPS = ["RefuseFrame", "VersionMonotone"]
 ACTIONS = ["OpenOp", "Lock", "Collect", "Null01", "Bump1", "MoveWs", "NameToDoc", "RewriteCfg", "MoveCfg", "MoveFiles", "Bump2",
@@ -28,7 +28,7 @@ _G = {}
 
 
 def _ws_class(l):
-    return "custom-workspace" if l["wsKey"] in ("custom", "nested") else "default-workspace"
+    return "custom-workspace" if mu.LOC_OF.get(l["wsKey"], "x") != "workspace" else "default-workspace"
 
 
 def _ver_class(l):
@@ -112,6 +112,11 @@ def _check_case(case, root, out, real=None, mutate_expected=None):
     if res != case["res"]:
         kind = "violation" if (legacy_ok or uptodate) else "drift"
         report(kind, "migrate:%s:outcome-%s" % (shape, res), "apply_migrations gives %s (%s), the specification requires %s; layout %r" % (res, detail, case["res"], l0))
+    if case["reqres"] != case["res"] and res == case["res"]:
+        # DEVIATION D1 is active for this layout and the real code behaves as the deviation says: the requirement fails
+        report("violation", "migrate:default-workspace-respelled:refused",
+               "a legacy project whose workspace_dir is %r (the default location) cannot be migrated: apply_migrations gives %s (%s); "
+               "the property requires %s" % (mu.key_text(real, l0["wsKey"]), res, detail, case["reqres"]))
     if exp == l0:
         if after != before:
             kind = "violation" if (uptodate or seen["dirs"] != l0["dirs"] or seen["njobs"] != l0["njobs"]) else "drift"
@@ -215,7 +220,21 @@ def _work(item):
     return n, out
 
 
+def probe_d1(work):
+    """minimal repro of deviation D1: is a legacy project with workspace_dir = ./workspace refused?"""
+    import shutil
+    root = os.path.join(work, "probe-d1")
+    shutil.rmtree(root, ignore_errors=True)
+    os.makedirs(os.path.join(root, "workspace"))
+    with open(os.path.join(root, "signac.rc"), "w") as f:
+        f.write("project = p\nworkspace_dir = ./workspace\nschema_version = 1\n")
+    res, _ = mu.run_op("migrate", root, root)
+    shutil.rmtree(root, ignore_errors=True)
+    return res == "ok"
+
+
 def _tlc(ctx, name, consts, env, coverage, workers):
+    consts = dict(consts, FixedD1="TRUE" if _G["fixed_d1"] else "FALSE")
     cfgt = tlc.cfg(consts, invariants=INVARIANTS, properties=PROPS, postcondition="Export")
     r = tlc.run("discovery/Migration.tla", cfg_text=cfgt, workdir=ctx.work, seed=ctx.seed % 10**6, env=env, coverage=coverage,
                 allow_violation=False, workers=workers)
@@ -233,17 +252,18 @@ def _random_cases(rnd, n):
         if not name or ("'" in name and '"' in name):
             continue
         seg = lambda: "".join(rnd.choice(string.ascii_letters + string.digits + " _-.") for _ in range(rnd.randrange(1, 9))).strip(" .") or "w"
-        custom, nested = seg() + "_c", os.path.join("data", seg() + "_n")
+        custom = seg() + "_c"
+        nested = os.path.join("data", seg() + "_n", "workspace") if rnd.random() < 0.3 else os.path.join("data", seg() + "_n")
         if custom in ("workspace", "data", "notes"):
             continue
         wsk, dirs, dd = rnd.choice([("", ("jobs", "absent", "absent"), False), ("workspace", ("jobs", "absent", "absent"), False),
                                     ("custom", ("absent", "jobs", "absent"), False), ("nested", ("absent", "absent", "jobs"), True),
                                     ("custom", ("stray", "jobs", "absent"), False), ("nested", ("stray", "absent", "jobs"), True)])
         l0 = {"where": "rc", "ver": rnd.choice(["absent", "0", "1"]), "name": "None" if name == "None" else "plain", "wsKey": wsk,
-              "dirs": dict(zip(("workspace", "custom", "nested"), dirs)), "dataDir": dd,
+              "dirs": dict(dict.fromkeys(mu.LOCS, "absent"), **dict(zip(("workspace", "custom", "nested"), dirs))), "dataDir": dd,
               "cache": rnd.choice(["none", "root"]), "hist": rnd.choice(["none", "root"]), "njobs": rnd.randrange(0, 6),
               "pdocUser": rnd.random() < 0.5, "pdocName": "", "cfgExtra": rnd.random() < 0.5, "lock": False}
-        real = {"name": name, "workspace": "workspace", "custom": custom, "nested": nested}
+        real = dict(mu.WSDIR, name=name, custom=custom, nested=nested)
         cases.append({"l0": l0, "op": "migrate", "real": real})
     return cases
 
@@ -303,11 +323,13 @@ def run(ctx):
     from ..discoveryutil import assert_clean_ancestry
     assert_clean_ancestry(_G["root"])
     rnd = random.Random(ctx.seed)
+    _G["fixed_d1"] = probe_d1(_G["root"])
+    ctx.cov["deviation_flags"] = {"FixedD1": _G["fixed_d1"]}
     ctx.assumptions += ["configobj's INI syntax (the harness writes and reads configuration files with its own minimal writer/reader, "
                         "cross-checked against the vendored configobj at start)", "filelock", "gzip / json of the standard library", "TLC"]
     ctx.cov["rule"] = ("case = (layout, operation); layouts: exhaustive product of {version absent/0/1/3/10 in signac.rc, absent/0/1/2/3/10 in "
-                       ".signac/config} x project name {None, plain, fancy} x workspace {default, explicit default, custom, nested, "
-                       "custom+colliding, nested+colliding} x cache x history x job count x project document x extra config entry; "
+                       ".signac/config} x project name {None, plain, fancy} x workspace_dir spelling {none, workspace, ./workspace, workspace/, "
+                       "my_workspace, workspace2, ./ws, ws/, data/ws dir, scratch/workspace, a/b/workspace; the custom ones also colliding} x cache x history x job count x project document x extra config entry; "
                        "operations Project / get_project / get_project from a sub-directory / init_project / apply_migrations "
                        "(+ second run + open afterwards); distinct = distinct (layout, operation)")
     # cross-check of the hand-written INI spelling against the vendored configobj (trusted base, not an oracle)
@@ -415,7 +437,7 @@ def replay(ctx, data):
     fin, fout = os.path.join(ctx.work, "in.ndjson"), os.path.join(ctx.work, "out.ndjson")
     with open(fin, "w") as f:
         f.write(json.dumps({"l0": case["l0"], "op": case["op"]}) + "\n")
-    cfgt = tlc.cfg({"NJ": "{0}", "SMALL": "TRUE", "MODE": '"file"'}, invariants=INVARIANTS, postcondition="Export")
+    cfgt = tlc.cfg({"NJ": "{0}", "SMALL": "TRUE", "MODE": '"file"', "FixedD1": "TRUE" if probe_d1(ctx.work) else "FALSE"}, invariants=INVARIANTS, postcondition="Export")
     tlc.run("discovery/Migration.tla", cfg_text=cfgt, workdir=ctx.work, env={"CASES_FILE": fin, "CASES_OUT": fout}, coverage=False, workers=2)
     exp = json.loads(open(fout).readline())
     out = []
